@@ -6,7 +6,7 @@ reg("C14", "non-conditional simulations follow their model; basic generators hav
          "matern, stable, sincard, besselj} + optional nugget, anisotropy ratio ~0.25-0.3 rotated along a grid direction "
          "(1,0),(0,1),(1,+-1),(2,+-1),(1,+-2), sill in [0.03,0.2] or [8,50], non-zero mean, 1-2 variables with cross-correlation "
          "+-0.7..0.95 of opposite signs in nested structures, nbtuba 100/200; two of the five carry a selection masking about a quarter of the nodes, the statistics then use active nodes only], 2 turning bands on scattered points (1-D, 2-D, 3-D), "
-         "2 simfft (reference: isotropic short range on a square grid; in turn non-square grid / anisotropic model / 3-D cubic grid 10^3 (thorough 12^3) with an isotropic short range), "
+         "2 simfft (reference: isotropic short range on a square grid; in turn non-square grid / anisotropic model / 3-D cubic grid 10^3 (thorough 12^3) with an isotropic short range / cubic structure of range ~2 grid sizes with percent = 50 (negative spectral terms clipped; 20000 realisations, thorough 40000; mean and variance only)), "
          "1 simuSpectral (block mod 4: gaussian unit sill; matern nu 1.5/2.5 unit sill; sill far from 1; reference exponential / "
          "matern 0.5 unit sill), 1 Cholesky (MatrixSquareSymmetricSim dense inverse=false/true, sparse; CholeskyDense / "
          "CholeskySparse::evalSimulate with VH::simulateGaussian white noise), 1 simulateSPDE (Matern nu=1, 12x12 grid), 4 basic "
